@@ -262,7 +262,7 @@ static long long resolve(const char *s) {
     int j = atoi(s + 1);
     if (j >= 0 && j < nreqs)
       return s[0] == 'm' ? reqs[nreqs - 1 - j].mid : (long long)reqs[nreqs - 1 - j].tok;
-    return s[0] == 'm' ? 60000 + j : 900000 + j;
+    return -1;      /* no such request: the input is skipped */
   }
   return atoll(s);
 }
@@ -333,6 +333,7 @@ static void do_exc(void) {
         ok = atoi(f[4]) != 0;
       }
       long long mid = resolve(ms), tok = resolve(ks);
+      if (mid < 0 || tok < 0) { recording = 0; continue; }   /* refers to a request never sent */
       uint8_t b[64];
       size_t n = peer_bytes(b, kind, (int)(mid & 0xffff), (unsigned long long)tok);
       cur_ok = ok;
